@@ -152,9 +152,19 @@ func (h *Hook) matchesCurrent() (bool, bool, error) {
 	}
 
 	by, err := io.ReadAll(io.LimitReader(file, 1024))
+	// Only the first 1024 bytes are compared with the known hooks, but
+	// whatever follows them decides as well: a file that goes on with
+	// anything other than blank space is not a hook that we wrote.
+	rest, rerr := io.ReadAll(file)
 	file.Close()
 	if err != nil {
 		return false, false, err
+	}
+	if rerr != nil {
+		return false, false, rerr
+	}
+	if len(strings.TrimSpace(string(rest))) > 0 {
+		return false, false, errors.New(fmt.Sprintf("%s\n\n%s\n", tr.Tr.Get("Hook already exists: %s", string(h.Type)), tools.Indent(strings.TrimSpace(tools.Undent(string(by)+string(rest))))))
 	}
 
 	contents := strings.TrimSpace(tools.Undent(string(by)))
